@@ -1,7 +1,7 @@
 PROPERTY = "C15"
 LEVEL = "proof"
 LEAN_MODULES = ["CifModel.Props.C15"]
-REQUIRED = ["CifModel.C15_skip_depth_balanced_partial", "CifModel.C15_result_nonneg", "CifModel.C15_positive_aborts_local",
+REQUIRED = ["CifModel.C15_skip_depth_balanced", "CifModel.C15_skip_depth_nonneg", "CifModel.C15_skip_depth_cif", "CifModel.C15_stop_is_last", "CifModel.C15_end_ok", "CifModel.C15_positive_aborts", "CifModel.C15_skip_opens_region", "CifModel.C15_skipped_region_silent", "CifModel.C15_syntax_only_same_log", "CifModel.C15_value_mirror", "CifModel.C15_result_nonneg", "CifModel.C15_positive_aborts_local",
             "CifModel.C15_loop_start_local", "CifModel.C15_cex_loop_start_pinned", "CifModel.C15_loop_start_code_returned"]
 GEN = ["ErrCodes"]
 FAMILIES = ["pcb"]
@@ -22,13 +22,15 @@ ASSUMPTIONS = [
     "default parse options (max_frame_depth clamps to 1: one level of save frames)",
 ]
 PARTIAL = [
-    "C15_skip_depth_balanced_partial covers parse_value/list/table, parse_item and the packet loop of parse_loop_packets "
-    "(all token sequences, all programs); the parse_loop / parse_container / parse_cif levels (C15_skip_depth_balanced_full) "
-    "are not proved — correspondence only",
-    "C15_all_continue_mirror, C15_syntax_only_same_log, C15_skip_semantics, C15_end_ok, C15_positive_aborts are NOT proved as "
-    "global theorems (stated as *_full propositions); proved are the local laws C15_positive_aborts_local / "
-    "C15_loop_start_local at every handler call site and C15_result_nonneg; the global statements are checked by the "
-    "independent oracle of the pcb family on every run",
+    "C15_skip_semantics is proved as C15_skip_opens_region (a SKIP answer at any start site puts the element's content / its "
+    "following siblings at skip_depth > 0, the element itself is not stored) + C15_skipped_region_silent (a production "
+    "entered at skip_depth > 0 makes no handler / data-name / keyword callback and stores nothing); the clause 'everything "
+    "else is stored as in an unfiltered parse' is only stated (C15_skip_semantics_rest_full) — correspondence + oracle",
+    "C15_syntax_only_same_log is proved for handler programs that do not look at the (NULL in syntax-only mode) handles and "
+    "under the hypothesis that the storing parse does not stop on a frame-nesting diagnostic (not well-formed under the options)",
+    "C15_all_continue_mirror is NOT proved as a theorem (stated as C15_all_continue_mirror_full over Doc / tokensOf / denote; "
+    "only its value level C15_value_mirror is proved: parse_value consumes exactly the tokens of a value and rebuilds it); "
+    "it is checked by the independent oracle of the pcb family on every run",
 ]
 LEVEL_TEXT = ("Partial proof about the executable token-level model ParseCB.parseCB (all token sequences, all handler "
               "programs): skip_depth balance of the value, item and packet-loop productions, non-negativity, local "
